@@ -300,6 +300,8 @@ func TestC02(t *testing.T) {
 	s.grid()
 	s.mux()
 	s.tamper()
+	s.system()  // system_test.go: real loopback sockets, outside any bubble
+	s.sampled() // system_test.go: tcpreuse + sampledconn driven by a raw TCP client
 	r.Require("grid_transfers_completed", 300)
 	r.Require("noise_reads_in_place", 100)
 	r.Require("noise_reads_pooled", 100)
